@@ -425,3 +425,98 @@ Proof.
   intros H. kind_cases H; apply opt_eqb_N_eq in E; (split; [assumption|]); eexists; (split; [reflexivity|]); cbn; auto.
   destruct (lk (get_thread s th)) as [|k r|k|k r|k r]; auto. destruct r; auto. destruct (N.eqb_spec k n); subst; auto.
 Qed.
+
+(* ---- Minv is preserved by every step ---------------------------------------------------------------------- *)
+Lemma Minv_set_thread s th t' : Minv s -> lk_ok s (lk t') -> Minv (set_thread th t' s).
+Proof.
+  intros [M1 M2 M3 M4 M5 M6] L. constructor; auto.
+  intros th'. rewrite get_thread_set_thread. destruct (N.eqb th th'); [exact L|apply M5].
+Qed.
+
+Lemma is_inst_insts s s' j k : insts s' = insts s -> is_inst s j k -> is_inst s' j k.
+Proof. intros E (y & A & B). exists y. now rewrite E. Qed.
+
+Lemma lk_ok_mono s s' l : (forall j k, is_inst s j k -> is_inst s' j k) -> lk_ok s l -> lk_ok s' l.
+Proof. intros F. destruct l as [|k [j|]|k|k [j|]|k [j|]]; cbn; auto. Qed.
+
+Lemma Minv_newinst s i n c : Minv s -> get i (insts s) = None -> Minv (s <| insts := set i (new_inst n c) (insts s) |>).
+Proof.
+  intros [M1 M2 M3 M4 M5 M6] Hi.
+  assert (F : forall j k, is_inst s j k -> is_inst (s <| insts := set i (new_inst n c) (insts s) |>) j k).
+  { intros j k (y & A & B). exists y. cbn. rewrite get_set. destruct (N.eqb_spec i j); [congruence|auto]. }
+  constructor; cbn.
+  - intros j x. rewrite get_set. destruct (N.eqb i j); [intros E; injection E as <-; discriminate|apply M1].
+  - intros j x. rewrite get_set. destruct (N.eqb i j); [intros E; injection E as <-; discriminate|apply M2].
+  - intros k j H. apply F. now apply M3.
+  - intros k j H. apply F. now apply M4.
+  - intros th. eapply lk_ok_mono; [exact F|apply M5].
+  - intros j x k c0 j0 todo. rewrite get_set. destruct (N.eqb i j); [intros E; injection E as <-; discriminate|].
+    intros A B. destruct (M6 _ _ _ _ _ _ A B). split; auto.
+Qed.
+
+Lemma Minv_doneadd s i x : Minv s -> get i (insts s) = Some x ->
+  Minv (upd_inst i (fun x => x <| d_added := true |>) (s <| donereg := set (nm x) i (donereg s) |>)).
+Proof.
+  intros [M1 M2 M3 M4 M5 M6] Hx.
+  set (s1 := s <| donereg := set (nm x) i (donereg s) |>).
+  set (s2 := upd_inst i (fun x => x <| d_added := true |>) s1).
+  assert (F : forall j k, is_inst s j k -> is_inst s2 j k).
+  { intros j k (y & A & B). unfold s2. unfold is_inst. rewrite insts_upd_inst. cbn [insts s1].
+    change (insts s1) with (insts s). rewrite A. destruct (N.eqb i j); cbn; eauto. }
+  constructor; unfold s2.
+  - intros j y. rewrite insts_upd_inst. change (insts s1) with (insts s). destruct (N.eqb i j); [|apply M1].
+    destruct (get j (insts s)) as [y0|] eqn:E; cbn; [|discriminate]. intros Q. injection Q as <-. reflexivity.
+  - intros j y. rewrite insts_upd_inst, upd_inst_donereg.
+    change (insts s1) with (insts s). change (donereg s1) with (set (nm x) i (donereg s)).
+    destruct (N.eqb_spec i j).
+    + subst j. rewrite Hx. cbn. intros Q _. injection Q as <-. cbn. now rewrite get_set_same.
+    + intros A B. rewrite get_set. destruct (N.eqb (nm x) (nm y)); [discriminate|]. eapply M2; eauto.
+  - intros k j. rewrite upd_inst_running. change (running s1) with (running s). intros H. apply F. now apply M3.
+  - intros k j. rewrite upd_inst_donereg. change (donereg s1) with (set (nm x) i (donereg s)). rewrite get_set.
+    destruct (N.eqb_spec (nm x) k).
+    + intros Q. injection Q as <-. apply F. exists x. auto.
+    + intros H. apply F. now apply M4.
+  - intros th. rewrite get_thread_upd_inst. eapply lk_ok_mono; [exact F|]. change (get_thread s1 th) with (get_thread s th). apply M5.
+  - intros j y k c j0 todo. rewrite insts_upd_inst. change (insts s1) with (insts s). destruct (N.eqb i j).
+    + destruct (get j (insts s)) as [y0|] eqn:E; cbn; [|discriminate]. intros Q. injection Q as <-. cbn.
+      intros B. destruct (M6 _ _ _ _ _ _ E B). split; auto.
+    + intros A B. destruct (M6 _ _ _ _ _ _ A B). split; auto.
+Qed.
+
+Lemma Minv_step_core s th e s' : Minv s -> step_core s th e = Some s' -> Minv s'.
+Proof.
+  intros M H.
+  destruct (step_core_kind _ _ _ _ H) as [? ?|i x ? ? ? ? ? ?|Hk|Hk|Hk|i s0 ? Hk|i s0 b ? Hk|Hk|i ? Hk|Hk|Hk]; subst.
+  - exact M.
+  - destruct M as [M1 M2 M3 M4 M5 M6]. constructor; auto.
+  - destruct e; try (cbn in Hk; discriminate Hk).
+    + destruct (reg_newinst _ _ _ _ _ Hk) as (c & ? & ? & ->). now apply Minv_newinst.
+    + destruct (reg_regadd _ _ _ _ _ Hk) as (x & Hx & Hn & ->). destruct M as [M1 M2 M3 M4 M5 M6]. constructor; auto.
+      cbn. intros k j. rewrite get_set. destruct (N.eqb_spec n k); [|apply M3].
+      intros Q. injection Q as <-. subst k. exists x. auto.
+    + destruct (reg_regdel _ _ _ _ Hk) as (x & Hx & Hp & ->). destruct M as [M1 M2 M3 M4 M5 M6]. constructor; auto.
+      cbn. intros k j. rewrite get_del. destruct (N.eqb (nm x) k); [discriminate|apply M3].
+    + destruct (reg_regget _ _ _ _ _ Hk) as (Hf & t' & -> & L). apply Minv_set_thread; [exact M|].
+      destruct L as [[_ L]|L]; rewrite L; cbn; [|exact I]. destruct found as [j|]; [|exact I].
+      apply (mi_run _ M). now symmetry.
+    + destruct (reg_doneadd _ _ _ _ Hk) as (x & Hx & ->). now apply Minv_doneadd.
+    + destruct (reg_doneget _ _ _ _ _ Hk) as (Hf & t' & -> & L). apply Minv_set_thread; [exact M|].
+      destruct L as [[_ L]|L]; rewrite L; cbn; (destruct found as [j|]; [|exact I]); apply (mi_done _ M); now symmetry.
+  - eapply Minv_frame; [exact M|apply frM_frM2; eapply step_api_frM; eauto].
+  - eapply Minv_frame; [exact M|apply frM_frM2; eapply step_stop_frM; eauto].
+  - eapply Minv_frame; [exact M|apply frM_frM2; eapply step_state_frM; eauto].
+  - eapply Minv_frame; [exact M|apply frM_frM2; eapply step_procend_frM; eauto].
+  - eapply Minv_frame; [exact M|apply frM_frM2; eapply step_shutdown_frM; eauto].
+  - eapply Minv_frame; [exact M|apply frM_frM2; eapply step_ordered_frM; eauto].
+  - eapply Minv_frame; [exact M|apply frM_frM2; eapply step_env_frM; eauto].
+  - eapply Minv_frame; [exact M|eapply step_own_frM2; eauto].
+Qed.
+
+Lemma Minv_step s te s' : Minv s -> step s te = Some s' -> Minv s'.
+Proof.
+  intros M H. unfold step in H. eapply Minv_step_core; [|exact H].
+  eapply Minv_frame; [exact M|apply frM_frM2, flush_frM].
+Qed.
+
+Lemma Minv_init cs ord : Minv (init cs ord).
+Proof. constructor; cbn; try discriminate. intros th. exact I. Qed.
